@@ -277,6 +277,7 @@ def traced(spec: dict) -> dict:
         raise ValueError(k)
 
     withheld: dict = {'trace': None, 'event': None, 'released_at': None, 'thread_traces': {}}
+    live_traces: set = set()
 
     def release() -> None:
         ev = withheld['event']
@@ -296,6 +297,10 @@ def traced(spec: dict) -> dict:
             if ev is None:
                 break
             out.append(ev)
+            if isinstance(ev, E.OnStartTrace):
+                live_traces.add(ev.trace_no)
+            if isinstance(ev, E.OnEndTrace):
+                live_traces.discard(ev.trace_no)
             if isinstance(ev, E.OnStartTrace) and ev.task_no is None and ev.thread_no >= 2:
                 withheld['thread_traces'][ev.trace_no] = len(out)
             if isinstance(ev, E.OnStartPrompt):
@@ -314,6 +319,8 @@ def traced(spec: dict) -> dict:
                     qi.put(PdbCommand(trace_no=ev.trace_no, prompt_no=ev.prompt_no - 1, command='p "DECOY-stale"'))
                     qi.put(PdbCommand(trace_no=99, prompt_no=ev.prompt_no, command='p "DECOY-unknown"'))
                     qi.put(PdbCommand(trace_no=ev.trace_no, prompt_no=ev.prompt_no + 500, command='p "DECOY-future"'))
+                    for other in sorted(live_traces - {ev.trace_no}):
+                        qi.put(PdbCommand(trace_no=other, prompt_no=ev.prompt_no, command='p "DECOY-other-trace"'))
                 if spec.get('nonresuming_first') and nprompts[0] % 3 == 1:
                     # a command that does not resume: Pdb prints and prompts again in the same command loop
                     qi.put(PdbCommand(trace_no=ev.trace_no, prompt_no=ev.prompt_no, command='p 1 + 1'))
@@ -328,12 +335,16 @@ def traced(spec: dict) -> dict:
     sys.stdout = tee
     err = None
     r = None
+    swi = sys.getswitchinterval()
+    if spec.get('switchinterval'):
+        sys.setswitchinterval(spec['switchinterval'])      # thread switches at (almost) every bytecode boundary
     try:
         r = run(RunArg(run_no=spec.get('run_no', 1), statement=make_statement(spec), filename='<string>',
                        trace_threads=spec.get('trace_threads', True), trace_modules=spec.get('trace_modules', False)), qi, qo)
     except BaseException as e:  # noqa
         err = f'{type(e).__name__}: {e}'
     finally:
+        sys.setswitchinterval(swi)
         sys.stdout = old
         qo.put(None)
         t.join(10)
